@@ -134,3 +134,13 @@ def replay(prop, path):
     finally:
         import shutil
         shutil.rmtree(work, ignore_errors=True)
+
+
+def extra_C10(rep, tier):
+    from . import check_image
+    check_image.add_to(rep, "C10", check_image.run())
+
+
+def extra_C13(rep, tier):
+    from . import check_image
+    check_image.add_to(rep, "C13", check_image.run())
